@@ -55,6 +55,12 @@ func main() {
 			if err != nil {
 				os.Exit(0)
 			}
+			if lf := os.Getenv("VERIF_LINES"); lf != "" { // what the driver's out port really wrote, verbatim
+				if g, err := os.OpenFile(lf, os.O_APPEND|os.O_WRONLY|os.O_CREATE, 0o644); err == nil {
+					g.WriteString(line)
+					g.Close()
+				}
+			}
 			res := "F"
 			if c, err := net.DialUnix("unixgram", nil, &net.UnixAddr{Name: sock, Net: "unixgram"}); err == nil {
 				if _, err := c.Write([]byte(line)); err == nil {
